@@ -182,6 +182,34 @@ func genSched(t *rapid.T) sched {
 	return s
 }
 
+// nonexistentFor gives a yyyy-mm-dd text that is not a calendar day and that
+// time.Date-style normalisation would map onto the given day ("" if the day
+// has no such spelling within two-digit fields).
+func nonexistentFor(day int64) string {
+	y, m, d := time.Unix(day*86400, 0).UTC().Date()
+	if y < 1 || y > 9998 {
+		return ""
+	}
+	last := func(y int, m time.Month) int { return time.Date(y, m+1, 0, 0, 0, 0, 0, time.UTC).Day() }
+	switch {
+	case d <= 3 && m == time.January && d == 1 && y%2 == 0:
+		return fmt.Sprintf("%04d-13-%02d", y-1, d)
+	case d <= 3:
+		py, pm := y, m-1
+		if pm == 0 {
+			py, pm = y-1, time.December
+		}
+		return fmt.Sprintf("%04d-%02d-%02d", py, int(pm), last(py, pm)+d)
+	case d == last(y, m):
+		nm, ny := m+1, y
+		if nm == 13 {
+			nm, ny = 1, y+1
+		}
+		return fmt.Sprintf("%04d-%02d-00", ny, int(nm))
+	}
+	return ""
+}
+
 func genCase(t *rapid.T) (sched, int64, int64) {
 	s := genSched(t)
 	var day int64
@@ -197,6 +225,14 @@ func genCase(t *rapid.T) (sched, int64, int64) {
 	}
 	for i := 0; i < nd; i++ {
 		off := int64(rapid.IntRange(-2, 2).Draw(t, "dateOff"))
+		if rapid.IntRange(0, 3).Draw(t, "dateKind") == 0 {
+			// a list entry that names no calendar day but would "roll over" onto day+off
+			// (2023-02-29 for 1 March, 2024-04-31, 2023-13-01, 2024-03-00): no day D matches it
+			if ne := nonexistentFor(day + off); ne != "" {
+				s.dates = append(s.dates, ne)
+				continue
+			}
+		}
 		s.dates = append(s.dates, dateString(day+off))
 	}
 	// instant: biased to window boundaries of D-1, D, D+1
